@@ -242,13 +242,14 @@ async fn apply_remote_deletes(
         Dir::Push => {
             use std::fmt::Write as _;
             use tokio::io::AsyncWriteExt;
+            // NUL-separated: a file name may contain a newline, never a NUL.
             let mut list = String::new();
             for rel in dels {
-                let _ = writeln!(list, "{}/{}", remote_root, rel.display());
+                let _ = write!(list, "{}/{}\0", remote_root, rel.display());
             }
             if let Ok(mut child) = tokio::process::Command::new("ssh")
                 .arg(host)
-                .arg("xargs -d '\\n' rm -f --")
+                .arg("xargs -0 rm -f --")
                 .stdin(std::process::Stdio::piped())
                 .stdout(std::process::Stdio::null())
                 .stderr(std::process::Stdio::piped())
